@@ -693,11 +693,14 @@ def _r4(ck: Checker, w):
 def _r5(ck: Checker, r):
     rb = _branches(r, _method_label)
     cfg = cfg_of(r)
-    for meth in ("traditional", "azimuthal"):
+    for meth in ("traditional", "azimuthal", "diffuse_field"):
         br = rb.get(meth)
         if br is None:
             continue
         body = ast.Module(body=br.body, type_ignores=[])
+        if meth == "diffuse_field":
+            _update_arguments(ck, r, body)
+            continue
         ups = [cfg.node(parent_stmt(c)) for c in calls_in(body, "update_peaks_bounded")]
         ctor = [cfg.node(parent_stmt(c)) for c in calls_in(body) if call_name(c) in ("HvsrTraditional", "HvsrAzimuthal")]
         mask_stores = []
@@ -734,15 +737,33 @@ def _r5(ck: Checker, r):
                 ck.ok("C12.R5", R, "azimuthal: masks restored for every azimuth in order", nontrivial=False)
             else:
                 ck.violation("C12.R5", R, "azimuthal: per-azimuth restoration", "masks are not restored for every azimuth in order", loc=r.loc(br))
-        # the range passed to the update is the stored one
-        for c in calls_in(body, "update_peaks_bounded"):
-            sr = kwarg(c, "search_range_in_hz")
-            fk = kwarg(c, "find_peaks_kwargs")
-            good = sr is not None and "meta['search_range_in_hz']" in unparse(sr) and fk is not None and unparse(fk) == "meta['find_peaks_kwargs']"
-            if good:
-                ck.ok("C12.R5", R, norm_key(c, 100), nontrivial=False)
-            else:
-                ck.violation("C12.R5", R, norm_key(c, 100), "the peak search on read does not use the stored range and kwargs", loc=r.loc(c))
+        _update_arguments(ck, r, body)
+
+
+def _update_arguments(ck: Checker, r, body):
+    """The range / find_peaks arguments handed to update_peaks_bounded on read are the entries of the metadata parsed from the file."""
+    for c in calls_in(body, "update_peaks_bounded"):
+        sr = kwarg(c, "search_range_in_hz")
+        fk = kwarg(c, "find_peaks_kwargs")
+        def from_file(e, key):
+            """`e` reads entry `key` of the metadata parsed from the file: the local dict itself, or the object's `meta` only when
+            that dict was assigned to it before this call (a constructor's own default search overwrites its copy)."""
+            subs = [x for x in ast.walk(e) if isinstance(x, ast.Subscript) and isinstance(x.slice, ast.Constant) and x.slice.value == key]
+            if len(subs) != 1:
+                return False
+            b = subs[0].value
+            if isinstance(b, ast.Name):
+                return True
+            if isinstance(b, ast.Attribute) and b.attr == "meta" and isinstance(b.value, ast.Name):
+                return any(isinstance(st, ast.Assign) and any(unparse(t) == unparse(b) for t in st.targets) and isinstance(st.value, ast.Name)
+                           and (st.lineno, st.col_offset) < (c.lineno, c.col_offset) for st in ast.walk(body if isinstance(body, ast.AST) else ast.Module(body=list(body), type_ignores=[])))
+            return False
+        good = sr is not None and from_file(sr, "search_range_in_hz") and fk is not None and from_file(fk, "find_peaks_kwargs") \
+            and isinstance(fk, ast.Subscript)
+        if good:
+            ck.ok("C12.R5", R, norm_key(c, 100), nontrivial=False)
+        else:
+            ck.violation("C12.R5", R, norm_key(c, 100), "the peak search on read does not use the stored range and kwargs", loc=r.loc(c))
 
 
 # --------------------------------------------------------------------------- R6
